@@ -176,8 +176,12 @@ impl PartialEq for Rule {
 
 impl fmt::Display for Rule {
     fn fmt(&self, f: &mut fmt::Formatter<'_>) -> fmt::Result {
-        let fmtted = serde_json::to_string_pretty(self).unwrap();
-        write!(f, "{}", fmtted)
+        // `Custom(_)` strategies are `#[serde(skip)]` and cannot be serialized:
+        // fall back to the Debug form instead of panicking inside a log statement
+        match serde_json::to_string_pretty(self) {
+            Ok(fmtted) => write!(f, "{}", fmtted),
+            Err(_) => write!(f, "{:?}", self),
+        }
     }
 }
 
